@@ -35,12 +35,16 @@ type Spec struct {
 	BudgetS int             `json:"budget_s,omitempty"` // wall-clock budget; exceeding it ends the run with exhaustive:false, never a verdict
 	Choices []int           `json:"choices,omitempty"`  // replay only
 	NoCache bool            `json:"no_cache,omitempty"` // explore without happens-before state caching (sees orderings of unsynchronised accesses)
+	PostRel bool            `json:"post_release,omitempty"` // extra scheduling point after every Unlock/RUnlock (see vsched.PostRelease)
 }
 
 func (s Spec) String() string {
 	nc := ""
 	if s.NoCache {
 		nc = " nocache"
+	}
+	if s.PostRel {
+		nc += " post-release-points"
 	}
 	return fmt.Sprintf("%s/%s %s %s bound=%d%s", s.Prop, s.Part, s.Kind, string(s.Params), s.Bound, nc)
 }
@@ -92,6 +96,7 @@ func runSpec(sp Spec, p *ev.Part) {
 		d.Direct(sp, p, known)
 		return
 	}
+	vsched.PostRelease = sp.PostRel
 	sc := d.Build(sp, p)
 	if sc == nil {
 		d.Direct(sp, p, known)
@@ -353,7 +358,7 @@ func doReplay(prop, part, file string) {
 	p := ev.NewPart(prop, part, "")
 	if d.Build == nil {
 		d.Direct(sp, p, func(string) bool { return false })
-	} else if sc := d.Build(sp, p); sc == nil {
+	} else if sc := func() *vsched.Scenario { vsched.PostRelease = sp.PostRel; return d.Build(sp, p) }(); sc == nil {
 		d.Direct(sp, p, func(string) bool { return false })
 	} else {
 		o, div := vsched.Replay(sc, sp.Choices)
